@@ -43,7 +43,7 @@ const LATE_MS: u64 = 2500;
 /// bound after which a call is "pending" when the specification allows pending / when it does not
 const PENDING_OK_MS: u64 = 1200;
 const HANG_MS: u64 = 5000;
-const BIND_MS: u64 = 500;
+const BIND_MS: u64 = 4000;
 
 fn infra(msg: &str) -> ! {
     eprintln!("setup-run: infrastructure problem: {}", msg);
@@ -657,6 +657,10 @@ fn est_key(cfg: &Value, sc: &Value, o: &CallObs, evs: &[Value], verdict: &[Strin
                 format!("c17:downgrade:established-without-handshake:{}", what)
             } else if verify {
                 format!("c17:downgrade:accepted-cert-{}-{}-connector", hs, s(cfg, "connector"))
+            } else if o.bind == Some(-1) {
+                // the bind inside the (legitimately) established session got no answer within the harness's bound even on
+                // the retry: that says nothing about a downgrade; an overloaded machine is the likely cause
+                format!("infra:bind-after-establishment-no-answer:{}", what)
             } else if o.bind != Some(49) {
                 format!("c17:bind-after-establishment:{}", what)
             } else {
@@ -677,7 +681,7 @@ fn est_key(cfg: &Value, sc: &Value, o: &CallObs, evs: &[Value], verdict: &[Strin
 /// "pending" at the short bound before the server had anything to stall on, or a Timeout on an honest flow.
 async fn run_script(cfg: Value, sc: Value, verdict: Vec<String>, tls: Tls) -> (Value, CallObs, bool, bool) {
     let (rec, o, ok) = run_script_once(cfg.clone(), sc.clone(), verdict.clone(), tls.clone(), PENDING_OK_MS, SHORT_MS).await;
-    let inconclusive = !ok && ((o.result == "pending" && verdict.iter().any(|v| v == "pending")) || (o.result == "err" && o.cls == "Timeout" && verdict.len() == 1 && verdict[0] == "ok"));
+    let inconclusive = !ok && ((o.result == "ok" && o.bind == Some(-1)) || (o.result == "pending" && verdict.iter().any(|v| v == "pending")) || (o.result == "err" && o.cls == "Timeout" && verdict.len() == 1 && verdict[0] == "ok"));
     if !inconclusive {
         return (rec, o, ok, false);
     }
